@@ -51,6 +51,7 @@ type rcEnv struct {
 	target    *ccontainer.CContainer[int]
 	targetErr *ccontainer.CContainer[*error]
 	onRelease func(i int) // optional: runs inside the release function of call i
+	gate2     *vsched.Gate // optional: resolver call 2 waits for it before returning
 }
 
 // newRC2 builds a RefCount whose resolver follows script(i) for call i (1-based).
@@ -83,6 +84,9 @@ func newRC2Opt(ctx context.Context, keep bool, script func(i int) int, noErrTarg
 		vsched.CtrSet(rcCtxBg0+i, vsched.Ctr(rcCtxChange))
 		vsched.Observe(oEnter, int64(i), int64(mode), 0)
 		vsched.SetCell(49+i, released)
+		if i == 2 && e.gate2 != nil {
+			e.gate2.Wait()
+		}
 		switch mode {
 		case mLate:
 			<-rctx.Done()
@@ -324,6 +328,12 @@ func init() {
 		Body: func() {
 			root, cancel := context.WithCancel(bg)
 			e := newRC2(root, false, firstThen([]int{mValue, mSlow, mLate, mError}[vsched.Choose(4)]))
+			// optionally a callback-less reference is added first (it is met first when results are fanned out)
+			var ka *refcount.Ref[int]
+			if vsched.Choose(2) == 1 {
+				ka = e.rc.AddRef(nil)
+				vsched.CtrAdd(rcHeld, 1)
+			}
 			ref := e.rc.AddRef(refCb(0))
 			vsched.CtrSet(rcRefHeld+0, 1)
 			vsched.CtrAdd(rcHeld, 1)
@@ -347,6 +357,10 @@ func init() {
 			}
 			// a reader of the target container takes the container's lock at any moment while the last
 			// reference is dropped (the value is cleared from the container before its release function runs)
+			if ka != nil {
+				vsched.CtrAdd(rcHeld, -1)
+				ka.Release()
+			}
 			T("TR", func() {
 				for i := 0; i < 2; i++ {
 					e.target.GetValue()
@@ -437,7 +451,7 @@ func init() {
 		},
 	})
 	eng.Register(&eng.Scenario{
-		Name: "refcount-waitcontainer", Props: []string{"C09"}, MustFinish: true, ObsNames: stdObs, RacePB: 2,
+		Name: "refcount-waitcontainer", Props: []string{"C09", "C10"}, MustFinish: true, ObsNames: stdObs, RacePB: 2,
 		Doc:   "refcount.WaitRefCountContainer on the target / error containers of a RefCount whose first resolver call returns a value or an error (choice), while a reference user comes and goes and the context may change: it returns the value or the error that was delivered to the containers",
 		Quick: eng.Bounds{PB: 2, Delay: true}, Thorough: eng.Bounds{PB: 3, Delay: true},
 		Body: func() {
@@ -459,9 +473,25 @@ func init() {
 					fail("C09.bogus-value", "WaitRefCountContainer returned (%d,%v)", v, err)
 				}
 			})
+			hold := vsched.Choose(2) == 1 // a reference is held throughout: the result stays in the containers
+			var held *refcount.Ref[int]
+			if hold {
+				held = e.rc.AddRef(nil)
+			}
 			T("U0", func() { e.user(0, false, false) })
 			T("U1", func() { e.user(1, true, false) })
 			vsched.Settle()
+			if hold && vsched.CountParked("WaitRefCountContainer") > 0 {
+				if pe := e.targetErr.GetValue(); pe != nil && *pe != nil {
+					fail("C09.result-not-delivered", "the error container holds the resolver's error but WaitRefCountContainer is still blocked")
+					fail("C10.wrong-error", "the resolver error is in the error container but WaitRefCountContainer does not return it")
+				} else if e.target.GetValue() != 0 {
+					fail("C09.result-not-delivered", "the target container holds a value but WaitRefCountContainer is still blocked")
+				}
+			}
+			if held != nil {
+				held.Release()
+			}
 			vsched.CtrAdd(rcCtxChange, 1)
 			wcancel()
 			vsched.Settle()
